@@ -38,14 +38,31 @@ struct Cfg {
     #[serde(default)] ping_timeout_tok: String,
     /// what connection attempts yield: "" ok | "refuse"
     #[serde(default)] connect: String,
+    #[serde(default)] connect_timeout_ms: u64,
+    #[serde(default)] base_ms: u64,
+    #[serde(default)] max_ms: u64,
+    /// new connections start with their writes stalled (the script releases them)
+    #[serde(default)] stall_new: bool,
+    /// Settle waits its whole time (lifecycle runs: there is no operation whose result would tell that things have settled)
+    #[serde(default)] settle_full: bool,
 }
 
 #[derive(Clone, Debug, Serialize, Deserialize)]
 #[serde(tag = "a")]
 enum Step {
     Start {},
-    Stop {},
+    Stop { #[serde(default)] disc: bool },
     Close {},
+    /// what the next connection attempts yield: ok | refuse
+    ConnectPlan { mode: String },
+    /// connack_ok | connack_fail | garbage  (plain transport, auto_broker off)
+    Send { what: String },
+    WriteStall { on: bool },
+    WriteError {},
+    ReadError {},
+    AutoBroker { on: bool },
+    /// wait until the client has written a complete CONNECT on the current connection (bounded)
+    WaitWritten {},
     /// wait until the client is connected (CONNACK delivered), bounded
     WaitConnected {},
     Publish { #[serde(default)] qos: u8, #[serde(default)] size: usize, #[serde(default)] callback: bool, #[serde(default)] ack: String },
@@ -78,17 +95,20 @@ struct Shared {
     writes: usize,
     auto: bool,
     connacked: bool,
+    write_stall: bool,
+    write_err: bool,
+    read_err: bool,
 }
 
 struct Scripted(Arc<Mutex<Shared>>);
 
 fn broker_answers(s: &mut Shared) -> Vec<Packet> {
     let mut answers = Vec::new();
+    if !s.auto { return answers; }      // what arrives while the automatic broker is off is answered when it is switched on
     let framed = rc::frame(&s.written[s.parsed..]);
     let base = s.parsed;
     for (first, body, _start, end) in framed.frames {
         s.parsed = base + end;
-        if !s.auto { continue; }
         if let Ok(p) = rc::decode(first, &body, true) {
             match p.ptype {
                 rc::CONNECT => { answers.push(Packet::new(rc::CONNACK).with("session_present", V::Flag(false)).with("reason_code", V::U(0))); s.connacked = true; }
@@ -112,6 +132,7 @@ impl Read for Scripted {
             for i in 0..n { buf[i] = s.inbox.pop_front().unwrap(); }
             return Ok(n);
         }
+        if s.read_err { return Err(std::io::Error::from(std::io::ErrorKind::ConnectionReset)); }
         if s.eof { return Ok(0); }
         Err(std::io::Error::from(std::io::ErrorKind::WouldBlock))
     }
@@ -121,6 +142,8 @@ impl Write for Scripted {
     fn write(&mut self, data: &[u8]) -> std::io::Result<usize> {
         let mut s = self.0.lock().unwrap();
         s.writes += 1;
+        if s.write_err { return Err(std::io::Error::from(std::io::ErrorKind::BrokenPipe)); }
+        if s.write_stall { return Err(std::io::Error::from(std::io::ErrorKind::WouldBlock)); }
         if s.block_every > 0 && s.writes % s.block_every == 0 { return Err(std::io::Error::from(std::io::ErrorKind::WouldBlock)); }
         let mut n = data.len();
         if s.write_chunk > 0 { n = n.min(s.write_chunk); }
@@ -214,6 +237,8 @@ fn run_script(script: &Script, run_no: u64, tr: &mut Trace) {
     let mut seq_fields = |tr: &mut Trace, ev: &str, mut f: Vec<(&str, Value)>| { f.insert(0, ("t", json!(t0.elapsed().as_millis() as u64))); tr.emit(ev, f); };
 
     let conns: Arc<Mutex<Vec<Arc<Mutex<Shared>>>>> = Arc::new(Mutex::new(Vec::new()));
+    let plan: Arc<Mutex<String>> = Arc::new(Mutex::new("ok".to_string()));
+    let auto_now: Arc<Mutex<bool>> = Arc::new(Mutex::new(cfg.auto_broker));
     let broker = if ws { start_ws_broker(cfg.ws_stall_ms) } else { None };
     if ws && broker.is_none() { seq_fields(tr, "Skipped", vec![("why", json!("no loopback socket"))]); return; }
 
@@ -221,6 +246,9 @@ fn run_script(script: &Script, run_no: u64, tr: &mut Trace) {
     cb.with_base_reconnect_period(Duration::from_millis(20)).with_max_reconnect_period(Duration::from_millis(1000)).with_reconnect_period_jitter(ExponentialBackoffJitterType::None)
       .with_connect_timeout(Duration::from_millis(3000));
     let tok = |t: &str| -> Option<Duration> { match t { "max" => Some(Duration::MAX), "halfplus" => Some(Duration::from_secs(u64::MAX / 2 + 1)), "zero" => Some(Duration::ZERO), _ => None } };
+    if cfg.connect_timeout_ms > 0 { cb.with_connect_timeout(Duration::from_millis(cfg.connect_timeout_ms)); }
+    if cfg.base_ms > 0 { cb.with_base_reconnect_period(Duration::from_millis(cfg.base_ms)); }
+    if cfg.max_ms > 0 { cb.with_max_reconnect_period(Duration::from_millis(cfg.max_ms)); }
     if let Some(d) = tok(&cfg.base_tok) { cb.with_base_reconnect_period(d); }
     if let Some(d) = tok(&cfg.max_tok) { cb.with_max_reconnect_period(d); }
     if let Some(d) = tok(&cfg.connect_timeout_tok) { cb.with_connect_timeout(d); }
@@ -235,10 +263,10 @@ fn run_script(script: &Script, run_no: u64, tr: &mut Trace) {
         b.with_client_options(cb.build()).with_connect_options(co.build()).with_threaded_options(to.build()).with_websocket_options(SyncWebsocketOptions::builder().build());
         match b.build() { Ok(c) => c, Err(_) => { seq_fields(tr, "Skipped", vec![("why", json!("builder failed"))]); return; } }
     } else {
-        let (fc, c2) = (conns.clone(), cfg.clone());
+        let (fc, c2, fplan, fauto) = (conns.clone(), cfg.clone(), plan.clone(), auto_now.clone());
         let factory: Arc<dyn Fn() -> gneiss_mqtt::error::GneissResult<Scripted> + Send + Sync> = Arc::new(move || {
-            if c2.connect == "refuse" { return Err(gneiss_mqtt::error::GneissError::from(std::io::Error::from(std::io::ErrorKind::ConnectionRefused))); }
-            let shared = Arc::new(Mutex::new(Shared { write_chunk: c2.write_chunk, read_chunk: c2.read_chunk, block_every: c2.block_every, auto: c2.auto_broker, ..Default::default() }));
+            if c2.connect == "refuse" || *fplan.lock().unwrap() == "refuse" { return Err(gneiss_mqtt::error::GneissError::from(std::io::Error::from(std::io::ErrorKind::ConnectionRefused))); }
+            let shared = Arc::new(Mutex::new(Shared { write_chunk: c2.write_chunk, read_chunk: c2.read_chunk, block_every: c2.block_every, auto: *fauto.lock().unwrap(), write_stall: c2.stall_new, ..Default::default() }));
             fc.lock().unwrap().push(shared.clone());
             Ok(Scripted(shared))
         });
@@ -251,7 +279,10 @@ fn run_script(script: &Script, run_no: u64, tr: &mut Trace) {
     let listener: Arc<ClientEventListenerCallback> = Arc::new(move |e: Arc<ClientEvent>| {
         match &*e {
             ClientEvent::PublishReceived(p) => { let payload = p.publish.payload().map(|x| x.to_vec()).unwrap_or_default(); let tag = tag_of(&payload).unwrap_or(0); let intact = payload == payload_for(tag, payload.len()); r2.lock().unwrap().push((tag, intact, payload.len())); }
+            ClientEvent::ConnectionAttempt(_) => l2.lock().unwrap().push("Attempt".into()),
             ClientEvent::ConnectionSuccess(_) => l2.lock().unwrap().push("Success".into()),
+            ClientEvent::ConnectionFailure(_) => l2.lock().unwrap().push("Failure".into()),
+            ClientEvent::Disconnection(_) => l2.lock().unwrap().push("Disconnection".into()),
             ClientEvent::Stopped(_) => l2.lock().unwrap().push("Stopped".into()),
             _ => {}
         }
@@ -295,7 +326,11 @@ fn run_script(script: &Script, run_no: u64, tr: &mut Trace) {
         for (conn, ty, pid, tag, intact) in out { tr.emit("Wrote", vec![("conn", json!(conn)), ("type", json!(ty)), ("pid", json!(pid)), ("tag", json!(tag)), ("intact", json!(intact))]); }
     };
 
+    let mut logged_life = 0usize;
     let mut poll = |tr: &mut Trace, pending: &mut Vec<(u64, Pending)>, logged_recv: &mut usize| {
+        let life: Vec<String> = lifecycle.lock().unwrap().clone();
+        for kind in life.iter().skip(logged_life) { tr.emit("ClientEv", vec![("kind", json!(kind))]); }
+        logged_life = life.len();
         // wire first (a result may only be judged after what was written has been logged)
         let list: Vec<(u64, bool, usize)> = recvd.lock().unwrap().clone();
         for (tag, intact, _len) in list.iter().skip(*logged_recv) { tr.emit("Recv", vec![("tag", json!(tag)), ("intact", json!(*intact as u8))]); }
@@ -311,7 +346,36 @@ fn run_script(script: &Script, run_no: u64, tr: &mut Trace) {
     for step in &script.steps {
         match step {
             Step::Start {} => { let r = client.start(if first_start { Some(listener.clone()) } else { None }); first_start = false; tr.emit("User", vec![("req", json!("UserStart")), ("accepted", json!(r.is_ok() as u8))]); }
-            Step::Stop {} => { let r = client.stop(None); tr.emit("User", vec![("req", json!("UserStop")), ("accepted", json!(r.is_ok() as u8))]); }
+            Step::Stop { disc } => {
+                let opts = if *disc { Some(StopOptions::builder().with_disconnect_packet(DisconnectPacket::builder().build()).build()) } else { None };
+                let r = client.stop(opts);
+                tr.emit("User", vec![("req", json!(if *disc { "UserStopDisc" } else { "UserStop" })), ("accepted", json!(r.is_ok() as u8))]);
+            }
+            Step::ConnectPlan { mode } => { *plan.lock().unwrap() = mode.clone(); }
+            Step::WriteStall { on } => { if let Some(c) = conns.lock().unwrap().last() { c.lock().unwrap().write_stall = *on; } tr.emit("Net", vec![("what", json!(if *on { "WriteStall" } else { "WriteResume" }))]); }
+            Step::WriteError {} => { if let Some(c) = conns.lock().unwrap().last() { c.lock().unwrap().write_err = true; } tr.emit("Net", vec![("what", json!("WriteError"))]); }
+            Step::ReadError {} => { if let Some(c) = conns.lock().unwrap().last() { c.lock().unwrap().read_err = true; } tr.emit("Net", vec![("what", json!("ReadError"))]); }
+            Step::AutoBroker { on } => {
+                *auto_now.lock().unwrap() = *on;
+                if let Some(c) = conns.lock().unwrap().last() { let mut s = c.lock().unwrap(); s.auto = *on; if *on { let answers = broker_answers(&mut s); for a in &answers { let bytes = rc::encode(a, true, None); s.inbox.extend(bytes.iter()); } } }
+            }
+            Step::WaitWritten {} => {
+                let t = Instant::now(); let mut found = false;
+                while t.elapsed() < Duration::from_secs(3) && !found {
+                    if let Some(c) = conns.lock().unwrap().last() { let s = c.lock().unwrap(); found = rc::frame(&s.written).frames.iter().any(|(f, _, _, _)| f >> 4 == rc::CONNECT); }
+                    if !found { std::thread::sleep(Duration::from_millis(1)); }
+                }
+                tr.emit("Waited", vec![("what", json!("CONNECT")), ("found", json!(found as u8))]);
+            }
+            Step::Send { what } => {
+                let bytes: Vec<u8> = match what.as_str() {
+                    "connack_ok" => rc::encode(&Packet::new(rc::CONNACK).with("session_present", V::Flag(false)).with("reason_code", V::U(0)), true, None),
+                    "connack_fail" => rc::encode(&Packet::new(rc::CONNACK).with("session_present", V::Flag(false)).with("reason_code", V::U(0x87)), true, None),
+                    _ => vec![0xff, 0xff, 0xff, 0xff, 0xff, 0x01],
+                };
+                if let Some(c) = conns.lock().unwrap().last() { c.lock().unwrap().inbox.extend(bytes.iter()); }
+                tr.emit("SentRaw", vec![("what", json!(what))]);
+            }
             Step::Close {} => { let r = client.close(); closed = true; tr.emit("User", vec![("req", json!("UserClose")), ("accepted", json!(r.is_ok() as u8))]); }
             Step::WaitConnected {} => {
                 let t = Instant::now();
@@ -362,11 +426,13 @@ fn run_script(script: &Script, run_no: u64, tr: &mut Trace) {
             Step::Sleep { ms } => std::thread::sleep(Duration::from_millis(*ms)),
             Step::PeerClose {} => { if let Some(b) = &broker { b.state.lock().unwrap().close = true; } else if let Some(c) = conns.lock().unwrap().last() { c.lock().unwrap().eof = true; } tr.emit("Net", vec![("what", json!("PeerClose"))]); }
             Step::Settle { ms } => {
+                // `ms` is how long a quiet machine needs at most; a loaded one gets four times that before anything is concluded
                 let t = Instant::now();
-                while t.elapsed() < Duration::from_millis(*ms) {
+                while t.elapsed() < Duration::from_millis(*ms * 4) {
                     log_wire(tr, &conns, &broker, &mut logged_wire, &mut wire_conn, &mut ws_logged);
                     poll(tr, &mut pending, &mut logged_recv);
-                    if pending.is_empty() && recvd.lock().unwrap().len() >= sent_total && t.elapsed() > Duration::from_millis(30) { break; }
+                    if cfg.settle_full { if t.elapsed() >= Duration::from_millis(*ms) { break; } }
+                    else if pending.is_empty() && recvd.lock().unwrap().len() >= sent_total && t.elapsed() > Duration::from_millis(30) { break; }
                     std::thread::sleep(Duration::from_millis(2));
                 }
             }
@@ -375,7 +441,9 @@ fn run_script(script: &Script, run_no: u64, tr: &mut Trace) {
         poll(tr, &mut pending, &mut logged_recv);
     }
     // end: the loop is known to have exited once a request is refused
-    let alive = client.start(None).is_ok();
+    // is the event loop still there?  Adding a listener goes through the command channel without touching the lifecycle.
+    let probe: Arc<ClientEventListenerCallback> = Arc::new(|_e: Arc<ClientEvent>| {});
+    let alive = client.add_event_listener(probe).is_ok();
     std::thread::sleep(Duration::from_millis(20));
     // the WebSocket broker reads on its own thread: wait until it has been quiet for a while before the final log
     if let Some(b) = &broker {
@@ -390,7 +458,8 @@ fn run_script(script: &Script, run_no: u64, tr: &mut Trace) {
     poll(tr, &mut pending, &mut logged_recv);
     for (id, _) in &pending { tr.emit("OpUnresolved", vec![("op", json!(id))]); }
     let ws_frames = broker.as_ref().map(|b| b.state.lock().unwrap().frames_in).unwrap_or(0);
-    tr.emit("End", vec![("loopAlive", json!(alive as u8)), ("closed", json!(closed as u8)), ("unresolved", json!(pending.len())), ("judge", json!(1)), ("expectAllRecv", json!((!closed) as u8)), ("wsFrames", json!(ws_frames)),
+    let stalled = conns.lock().unwrap().last().map(|c| c.lock().unwrap().write_stall).unwrap_or(false);
+    tr.emit("End", vec![("loopAlive", json!(alive as u8)), ("closed", json!(closed as u8)), ("unresolved", json!(pending.len())), ("judge", json!(!stalled as u8)), ("expectAllRecv", json!((!closed) as u8)), ("wsFrames", json!(ws_frames)),
         // a real socket that is closed with unread data resets the connection and the peer may lose what it had not read yet
         ("lossless", json!((!ws) as u8))]);
     if !closed { let _ = client.close(); }
